@@ -159,12 +159,30 @@ impl<'a> Context<'a> {
             return Ok(cached.clone());
         }
         let element = match self.as_of {
-            Some(seq) => self.store.element_at(&self.space, id, seq).await?,
+            Some(seq) => match self.store.element_at(&self.space, id, seq).await? {
+                Some(past) if self.readable_now(id).await => Some(past),
+                _ => None,
+            },
             None => self.store.get_element(id).await.ok(),
         };
         let element = self.admit(element);
         self.loaded.insert(id, element.clone());
         Ok(element)
+    }
+
+    /// Whether the element, as it stands **now**, is one this caller may read.
+    ///
+    /// A historical row carries the Governance block it had at its coordinate.
+    /// Judging only that block would let `AS OF` read around a classification
+    /// raised since: the element is hidden from every present-time query and
+    /// still answers at any earlier sequence. The read is happening now, so the
+    /// present block decides as well — the past one still has to pass `admit`.
+    /// An element with no current row (purged) has no present block to judge.
+    async fn readable_now(&self, id: ElementId) -> bool {
+        match self.store.get_element(id).await {
+            Ok(current) => self.authority.may_read(&current, self.auth).is_some(),
+            Err(_) => true,
+        }
     }
 
     /// Applies the read decision to one loaded element, caching its view.
@@ -295,7 +313,8 @@ impl<'a> Context<'a> {
                 // It still goes through `admit`, because a past coordinate is
                 // not a way around the present's authorization — the read is
                 // happening now, by this caller.
-                let admitted = self.admit(Some(element));
+                let present = self.readable_now(id).await;
+                let admitted = self.admit(present.then_some(element));
                 self.loaded.insert(id, admitted.clone());
                 if admitted.is_some() {
                     ids.push(id);
